@@ -6,7 +6,7 @@ from pyPRISM.core.Density import Density
 from pyPRISM.core.Diameter import Diameter
 
 RULE = ("random assignment histories (1-4 types, single keys and lists/tuples/arrays of keys, re-assignment, "
-        "ints and floats) applied to a real Density/Diameter and to the Lean model; after EVERY op all observables "
+        "ints, floats, NumPy integers and 0-d arrays) applied to a real Density/Diameter and to the Lean model; after EVERY op all observables "
         "(value table, total, pair & site matrices, sigma table via both access paths, volume, check()) are compared "
         "bit-exactly (volume: rtol 1e-14 — pow vs repeated product) and the property predicate is evaluated from an independent history replay; "
         "a case is non-trivial if it has >= 2 ops and touches >= 1 type twice or uses a list key; distinct = distinct (types, op list)")
@@ -72,6 +72,7 @@ def suite_history(ctx, case):
         v = op['v']
         val = int(v) if op.get('int') else v
         if op.get('npint'): val = getattr(np, op['npint'])(int(v))          # a fixed-width NumPy integer (a value read from an integer array)
+        if op.get('zerod'): val = np.array(val, dtype=float) if op['zerod'] == 'array' else np.squeeze(np.array([float(val), 7.0])[:1])          # a 0-d array (np.asarray(x), np.squeeze of a 1-element slice) is a number too
         key = key_of(op['ts'], types, op['style'])
         sub = dict(case); sub['upto'] = k
         if op['kind'] == 'dens':
@@ -156,7 +157,8 @@ def gen_case(rng, max_ops):
         npint = None
         if rng.random() < 0.06:
             v = float(rng.choice([40, 1400, 2000, 3])); isint = True; npint = rng.choice(['int16', 'int32', 'int64']) if v < 100 else rng.choice(['int32', 'int64'])
-        ops.append({'kind': kind, 'ts': ts, 'v': v, 'style': style, 'int': isint, 'npint': npint})
+        zerod = rng.choice(['array', 'squeeze']) if (npint is None and rng.random() < 0.1) else None
+        ops.append({'kind': kind, 'ts': ts, 'v': v, 'style': style, 'int': isint, 'npint': npint, 'zerod': zerod})
     return {'n': n, 'ops': ops, 'others': rng.random() < 0.4, 'labels': rng.choice(['names', 'names', 'ints0', 'ints', 'mixed'])}
 
 def generate(ctx):
